@@ -25,6 +25,7 @@ static const char *VALUES[] = {
 
 struct Gen {
     Rng rng;
+    bool no_insert = false;	// steer around the [n+] / [+] subscripts (known finding, see known_findings.json)
     bool c14;		// valid UTF-8 only
     std::vector<std::string> keys;
     DNode roots[NROOTS];
@@ -91,8 +92,8 @@ struct Gen {
 	    } else {
 		long n = kind == 3 ? (long)cur->vals.size() : 0;
 		double u = rng.uni();
-		if (for_set && u < 0.15) { e.t = 3; }
-		else if (for_set && u < 0.3) { e.t = 2; e.n = rng.chance(0.8) ? rng.range(0, n) : n + rng.range(1, 3); }
+		if (for_set && u < 0.15 && !no_insert) { e.t = 3; }
+		else if (for_set && u < 0.3 && !no_insert) { e.t = 2; e.n = rng.chance(0.8) ? rng.range(0, n) : n + rng.range(1, 3); }
 		else if (!for_set && allow_bad && u < 0.04) { e.t = rng.chance(0.5) ? 2 : 3; e.n = rng.range(0, n); }
 		else {
 		    e.t = 1;
@@ -163,7 +164,7 @@ Plan doc_gen(const std::string &check, const std::string &tier, uint64_t seed, l
     Gen g(hash_mix(hash_mix(seed, fnv1a(check)), (uint64_t)run));
     Rng &rng = g.rng;
     Plan plan;
-    bool c14 = check.compare(0, 3, "C14") == 0;
+    bool c14 = check.compare(0, 3, "C14") == 0 || check.compare(0, 3, "C12") == 0;
     bool faulty = check.find("faulty") != std::string::npos;
     bool thorough = tier == "thorough";
     g.c14 = c14;
@@ -174,6 +175,8 @@ Plan doc_gen(const std::string &check, const std::string &tier, uint64_t seed, l
     int ntasks = (int)rng.range(1, 3);
     double p_bad = rng.chance(0.3) ? 0.0 : rng.chance(0.5) ? 0.05 : 0.2;
     bool c11 = check.compare(0, 3, "C11") == 0;
+    bool c12 = check.compare(0, 3, "C12") == 0;
+    if (c12) { p_bad = 0; plan.cfg["strict_enomem"] = 1; g.no_insert = check.find("insert") == std::string::npos; }
     if (c11) { p_bad = rng.chance(0.5) ? 0.3 : 0.5; plan.cfg["assert_refused"] = 1; }
     long nops;
     {
@@ -182,6 +185,7 @@ Plan doc_gen(const std::string &check, const std::string &tier, uint64_t seed, l
 	nops = u < 0.5 ? rng.range(3, 15) : u < 0.85 ? rng.range(15, 50) : rng.range(50, cap);
     }
     if (c14) nops = rng.range(2, thorough ? 60 : 35);
+    if (c12) nops = rng.range(4, 18);
     plan.cfg["nkeys"] = nkeys;
     plan.cfg["maxdepth"] = maxdepth;
     plan.cfg["tasks"] = ntasks;
@@ -193,6 +197,7 @@ Plan doc_gen(const std::string &check, const std::string &tier, uint64_t seed, l
     std::vector<W> weights = {{"set", 35}, {"setsub", 8}, {"del", 15}, {"get", 6}, {"type", 5}, {"count", 5},
 	{"keys", 4}, {"getsub", 6}, {"copy", 4}, {"quote", 5}};
     if (c14) weights = {{"set", 60}, {"setsub", 10}, {"del", 12}, {"copy", 4}};
+    if (c12) weights = {{"set", 40}, {"setsub", 10}, {"del", 12}, {"copy", 8}, {"get", 5}, {"type", 3}, {"count", 3}, {"keys", 5}, {"getsub", 5}, {"quote", 5}};
     for (auto &w : weights) if (strcmp(w.k, "set") && rng.chance(0.2)) w.w = 0;
     double wsum = 0;
     for (auto &w : weights) wsum += w.w;
@@ -317,6 +322,7 @@ Plan doc_gen(const std::string &check, const std::string &tier, uint64_t seed, l
 	    plan.ops.push_back(d);
 	    g.roots[ri].clear();
 	}
+	if (c12 && !plan.ops.empty() && plan.ops.back().k != "restart") { Op d; d.k = "del"; d.i.assign(11, 0); d.i[0] = ri; d.s = {"", ""}; plan.ops.push_back(d); }
 	Op im; im.k = rng.chance(0.5) ? "import_f" : "import_s"; im.i.assign(11, 0); im.i[0] = ri; im.i[1] = rng.chance(0.7); im.s = {strf("f%d.yaml", cy)};
 	if (faulty && rng.chance(0.5)) {
 	    Fault f; double w2 = rng.uni();
@@ -328,7 +334,7 @@ Plan doc_gen(const std::string &check, const std::string &tier, uint64_t seed, l
 	}
 	plan.ops.push_back(im);
 	g.roots[ri] = saved;
-	if (rng.chance(0.3)) {	// second import into another (empty or populated) root
+	if (rng.chance(0.3) && !c12) {	// second import into another (empty or populated) root
 	    Op im2 = im; im2.k = rng.chance(0.5) ? "import_f" : "import_s"; im2.i[0] = (ri + 1) % NROOTS;
 	    plan.ops.push_back(im2);
 	    int r2 = (ri + 1) % NROOTS;	// engine empties the destination when it was populated
